@@ -720,6 +720,10 @@ class Engine:
                 raise OutOfSubset(f"undeclared field {oty}.{fname} first assigned None")
             self.fields[f"{oty[1]}.{fname}" if oty[0] == "obj" else fname] = ty
         val = self.coerce(val, ty)
+        tdecl = strip_opt(ty)
+        if val.ty != "none" and (is_ref(tdecl) != is_ref(val.ty) or (is_ref(tdecl) and tdecl[0] != val.ty[0])) and tdecl != "any" and val.ty != "any":
+            # e.g. a str stored where the contract declares a list: the declared shape of the field is part of the contract
+            self.oblige("field-type", z3.BoolVal(False), f"{fname}: declared {tdecl if not isinstance(tdecl, tuple) else tdecl[0]}, stored {val.ty if not isinstance(val.ty, tuple) else val.ty[0]}")
         name = self.fld_name(oty, fname, ty)
         self.hwrite(name, sort_of(ty), obj.z, val.z, f"{fname}")
         if is_opt(ty) and strip_opt(ty) in ("int", "real", "bool"):
